@@ -342,6 +342,14 @@ def generate(rng, seed, size):
                                              ("named", ["i128", "char"], ["a", "b"], "{b}{a}"), ("tuple", ["f32"], [], "{0}{0}")]:
                 variants.append(dict(ident="B%d" % len(variants), kind=kind, disabled=False, attrs=["#[strum(to_string = %s)]" % rs(lit)],
                                      fixed=None, literal=lit, tys=tys, fnames=fnames, ref=None, used=list(range(len(tys)))))
+            # ... and fixed names where `to_string` repeats, or is shorter than, a `serialize` literal written before it
+            for (kind, tys, fnames, attrs, canon) in [
+                    ("unit", [], [], ['#[strum(serialize = "blue", serialize = "navy-blue", to_string = "blue")]'], "blue"),
+                    ("tuple", ["u8"], [], ['#[strum(serialize = "a-much-longer-spelling")]', '#[strum(to_string = "short")]'], "short"),
+                    ("named", ["u8"], ["n1"], ['#[strum(serialize = "same", to_string = "same", serialize = "s")]'], "same"),
+                    ("unit", [], [], ['#[strum(to_string = "ts", serialize = "ts", serialize = "ts-longer")]'], "ts")]:
+                variants.append(dict(ident="B%d" % len(variants), kind=kind, disabled=False, attrs=attrs, fixed=canon, literal=None,
+                                     tys=tys, fnames=fnames, ref=None))
         # prefixes chosen with the variants in view: a brace in the prefix (only legal when no name is a format
         # literal), or a prefix that equals the beginning of one of the names it is prepended to
         has_interp = any(v["literal"] is not None for v in variants)
